@@ -19,6 +19,7 @@ import DefconModel.Lemmas.ReprKey
 import DefconModel.Lemmas.ReprGeom
 import DefconModel.Lemmas.ReprDom
 import DefconModel.Lemmas.ReprDep
+import DefconModel.Lemmas.ReprHold
 import DefconModel.ReprLayers
 import DefconModel.Gen.ReprTables
 
@@ -230,7 +231,7 @@ def exWorld : World Nat := run exParams Gen.ReprTables.tables {} exOps
 def exRank (x : String) : Nat := if x = "A" then 2 else if x = "B" then 1 else 0
 
 /-- the example world is inside the structural domain … -/
-example : Dom exWorld := by
+theorem exWorld_dom : Dom exWorld := by
   apply dom_of_checks exWorld exRank (by decide) (by decide)
   · intro x g k c hg hk hb
     have hm := AL.mem_of_get? hg
@@ -376,6 +377,105 @@ still served, until some later change evicts it.  (A disable is a request NOT to
 not contain it.) -/
 theorem disable_loses_eviction :
     disabledEdit.quiet = true ∧ StaleAt disabledEdit.w (.contour 1) "defcon.contour.bounds" := by decide +kernel
+
+/-- The statement of what the code guarantees around user holds: `InvH` - every cached value of every object is what
+its factory computes now, OR a post that destroys it is waiting in the queue of a hold that is still in force - is kept
+by every operation: holds and releases (counted, nested, of contours, components, glyphs, the groups, released in any
+order), requests, cache calls, and every inner mutator while something is held, anything at all while nothing is. -/
+def HoldInvariant (P : Params V) (T : Tables) : Prop :=
+  ∀ (hw0 : HWorld V) (ops : List HOp), InvH P T hw0 →
+    (∀ pre op, pre ++ [op] <+: ops → op.okIn (hrun P T hw0 pre) = true) →
+    (∀ pre, pre <+: ops → Dom (hrun P T hw0 pre).w) → InvH P T (hrun P T hw0 ops)
+
+/-- **hold_invariant.**  See `HoldInvariant`.  Hypotheses: the coverage obligation (discharged over the regenerated
+tables), the patch of `Contour.move`, the structural domain at every step, no `disableNotifications`, `Contour.move` only
+while nothing is held (`HOp.okIn`). -/
+theorem hold_invariant (P : Params V) (T : Tables) (hcov : Coverage T = true) (hpatch : PatchOK P) :
+    HoldInvariant P T := by
+  intro hw0 ops h0 hok hdom
+  induction ops generalizing hw0 with
+  | nil => exact h0
+  | cons op rest ih =>
+    have d0 : Dom hw0.w := hdom [] List.nil_prefix
+    have d1 : Dom (hstep P T hw0 op).1.w := hdom [op] (by simp)
+    have k0 : op.okIn hw0 = true := hok [] op (by simp)
+    have i1 := hstep_invH P T hcov hpatch hw0 op k0 h0 d0 d1
+    refine ih (hstep P T hw0 op).1 i1 ?_ ?_
+    · intro pre o hpre
+      have := hok (op :: pre) o (by simpa using hpre)
+      simpa [hrun] using this
+    · intro pre hpre
+      have := hdom (op :: pre) (by simpa using hpre)
+      simpa [hrun] using this
+
+/-- **release_restores.**  Start from any world in which nothing is stale and nothing is held.  After ANY history of
+holds, releases, requests, cache calls and mutators as in `hold_invariant`: once no hold is in force any more, nothing is
+stale - every cached value of every object equals its factory applied to the object's current view, exactly as if the
+user had never held anything.  (Inside the holds values may be stale: `stale_inside_hold`.) -/
+theorem release_restores (P : Params V) (T : Tables) (hcov : Coverage T = true) (hpatch : PatchOK P)
+    (w0 : World V) (ops : List HOp) (h0 : Inv P T w0)
+    (hok : ∀ pre op, pre ++ [op] <+: ops → op.okIn (hrun P T { w := w0 } pre) = true)
+    (hdom : ∀ pre, pre <+: ops → Dom (hrun P T { w := w0 } pre).w)
+    (hrel : (hrun P T { w := w0 } ops).holds = []) : Inv P T (hrun P T { w := w0 } ops).w :=
+  inv_of_invH (hold_invariant P T hcov hpatch { w := w0 } ops (invH_of_inv h0 rfl rfl) hok hdom) hrel
+
+/-- … and while the holds are in force, a value that is stale is one whose eviction is queued -/
+theorem stale_only_if_owed (P : Params V) (T : Tables) (hcov : Coverage T = true) (hpatch : PatchOK P)
+    (w0 : World V) (ops : List HOp) (h0 : Inv P T w0)
+    (hok : ∀ pre op, pre ++ [op] <+: ops → op.okIn (hrun P T { w := w0 } pre) = true)
+    (hdom : ∀ pre, pre <+: ops → Dom (hrun P T { w := w0 } pre).w)
+    (o : Obj) (nm : String) (sk : SubKey) (v : V)
+    (hv : (cacheOf (hrun P T { w := w0 } ops).w o).get? nm sk = some v)
+    (hstale : v ≠ fresh P T (hrun P T { w := w0 } ops).w o nm sk) :
+    OwedBy T (hrun P T { w := w0 } ops).w (hrun P T { w := w0 } ops).queue o nm := by
+  rcases (hold_invariant P T hcov hpatch { w := w0 } ops (invH_of_inv h0 rfl rfl) hok hdom).coh o nm sk v hv with h | h
+  · exact absurd h hstale
+  · exact h
+
+/-- a history that meets the hypotheses: hold the contour of C, ask for its bounds, mark it dirty (the post is queued), hold
+the glyph too, release both -/
+def holdOps : List HOp :=
+  [.hold (.contour 1), .base (.get (.contour 1) "defcon.contour.bounds" []), .base (.touch (.contour 1) "_set_dirty"),
+   .hold (.glyph "C"), .release (.contour 1), .release (.glyph "C")]
+
+def sameStructB {V : Type} (w w' : World V) : Bool :=
+  decide (w'.glyphs = w.glyphs) && decide (w'.looseC = w.looseC) && decide (w'.looseK = w.looseK) &&
+  decide (w'.fuel = w.fuel) && decide (w'.groupsVer = w.groupsVer) && decide (w'.regs = w.regs)
+
+theorem sameStruct_of_B {V : Type} {w w' : World V} (h : sameStructB w w' = true) : SameStruct w w' := by
+  unfold sameStructB at h
+  simp only [Bool.and_eq_true, decide_eq_true_eq] at h
+  obtain ⟨⟨⟨⟨⟨h1, h2⟩, h3⟩, h4⟩, h5⟩, h6⟩ := h
+  exact ⟨h1, h2, h3, h4, h5, h6⟩
+
+example : ∀ pre, pre <+: holdOps →
+    Dom (hrun exParams Gen.ReprTables.tables { w := exWorld } pre).w ∧
+    ∀ op, pre ++ [op] <+: holdOps → op.okIn (hrun exParams Gen.ReprTables.tables { w := exWorld } pre) = true := by
+  intro pre hpre
+  have hall : ∀ n, n ∈ List.range 7 →
+      sameStructB exWorld (hrun exParams Gen.ReprTables.tables { w := exWorld } (holdOps.take n)).w = true ∧
+      ∀ op, op ∈ holdOps → op.okIn (hrun exParams Gen.ReprTables.tables { w := exWorld } (holdOps.take n)) = true := by
+    decide +kernel
+  have hpt : pre = holdOps.take pre.length := List.prefix_iff_eq_take.mp hpre
+  have hlen : pre.length ∈ List.range 7 := by
+    have := hpre.length_le
+    simp only [List.mem_range]
+    have h6 : holdOps.length = 6 := rfl
+    omega
+  obtain ⟨h1, h2⟩ := hall pre.length hlen
+  rw [← hpt] at h1 h2
+  refine ⟨Dom.congr (sameStruct_of_B h1) exWorld_dom, ?_⟩
+  intro op hop
+  apply h2
+  have : op ∈ pre ++ [op] := by simp
+  exact (List.IsPrefix.sublist hop).subset this
+
+/-- the queue is really used in that history (the post of `dirty = True` waits, then moves to the glyph's hold) … -/
+example : ((hrun exParams Gen.ReprTables.tables { w := exWorld } (holdOps.take 5)).queue.map Prod.fst) = [Obj.glyph "C"] := by
+  decide +kernel
+/-- … and everything is released at the end -/
+example : (hrun exParams Gen.ReprTables.tables { w := exWorld } holdOps).holds = [] ∧
+    (hrun exParams Gen.ReprTables.tables { w := exWorld } holdOps).queue = [] := by decide +kernel
 
 /-- **other_layer_invisible.**  Whatever happens in one layer - edits, renames, deletions, holds, requests - the other
 layer keeps its glyphs, its caches, its holds and its queue: a component whose base name exists in the other layer only
